@@ -173,6 +173,7 @@ func (h *history) buildReport() []PacketReport {
 // delete removes p from the history. It must be called while holding the lock
 // for writing.
 func (h *history) delete(p *PacketReport) {
+	delete(h.packets, p.SequenceNumber)
 	if p.IsTWCC {
 		delete(h.twccToCounter, p.TWCCSequenceNumber)
 	}
